@@ -244,6 +244,8 @@ func VerifHarness_C06_gate() {
 	m.Header.SetString(tagOnBehalfOfCompID, "ob")
 	m.Header.SetString(tagDeliverToCompID, "dt")
 	m.Header.SetString(tagSenderLocationID, "sl")
+	m.Header.SetString(tagOnBehalfOfLocationID, "ol")
+	m.Header.SetString(tagDeliverToLocationID, "dl")
 	S, sReadable := c06Apply(r, m, d, T)
 	class, reason, refTag := c06Expect(d, recovering, r.s.SkipCheckLatency, val != nil && val.reject)
 
@@ -318,6 +320,12 @@ func VerifHarness_C06_gate() {
 		chk(128, "ob")
 		chk(115, "dt")
 		chk(143, "sl")
+		if bs != BeginStringFIX40 && d.d8 != 2 {
+			// the location routing tags exist from FIX.4.1 on (the version is read from the rejected message itself:
+			// nothing to go by when its BeginString is missing)
+			chk(145, "ol")
+			chk(144, "dl")
+		}
 	}
 	verifObserve("T1", T1)
 	verifObserve("sent", len(ws))
